@@ -457,7 +457,8 @@ MAX_UNROLL = 4
 
 
 def unroll_literal_loops(tree: ast.Module) -> int:
-    """`for x in (A, B): BODY` over a literal tuple / list of at most MAX_UNROLL names, attributes or constants is the same as
+    """`for x in (A, B): BODY` over a literal tuple / list of at most MAX_UNROLL names, attributes or constants (or
+    `for x, y in ((A, 1), (B, 2))` over rows of those) is the same as
     BODY[x := A]; BODY[x := B] when BODY neither rebinds `x` nor leaves the loop early (`break` / `continue` of this loop), the
     loop has no `else`, and `x` is read nowhere else in the routine.  Table-driven loops and repeated statements are two
     spellings of the same thing; rules see the repeated statements."""
@@ -494,17 +495,32 @@ def unroll_literal_loops(tree: ast.Module) -> int:
                         setattr(st, fld, block(sub))
                 for hd in getattr(st, 'handlers', []) or []:
                     hd.body = block(hd.body)
-                if (isinstance(st, ast.For) and not st.orelse and isinstance(st.target, ast.Name) and isinstance(st.iter, (ast.Tuple, ast.List))
-                        and 1 <= len(st.iter.elts) <= MAX_UNROLL and all(isinstance(e, (ast.Name, ast.Attribute, ast.Constant)) for e in st.iter.elts)
+                simple = (ast.Name, ast.Attribute, ast.Constant)
+                if (isinstance(st, ast.For) and not st.orelse and isinstance(st.iter, (ast.Tuple, ast.List)) and 1 <= len(st.iter.elts) <= MAX_UNROLL
                         and not leaves_early(st.body)):
-                    x = st.target.id
-                    inside = sum(1 for b in st.body for n in ast.walk(b) if isinstance(n, ast.Name) and n.id == x)
-                    rebinds = any(isinstance(n, ast.Name) and n.id == x and isinstance(n.ctx, (ast.Store, ast.Del)) for b in st.body for n in ast.walk(b))
+                    # one name per row, or a tuple of names unpacked from rows that are literal tuples of the same width
+                    names: List[str] = []
+                    rows: List[List[ast.expr]] = []
+                    if isinstance(st.target, ast.Name) and all(isinstance(e, simple) for e in st.iter.elts):
+                        names = [st.target.id]
+                        rows = [[e] for e in st.iter.elts]
+                    elif (isinstance(st.target, ast.Tuple) and all(isinstance(t, ast.Name) for t in st.target.elts)
+                          and all(isinstance(e, ast.Tuple) and len(e.elts) == len(st.target.elts) and all(isinstance(x_, simple) for x_ in e.elts) for e in st.iter.elts)):
+                        names = [t.id for t in st.target.elts]  # type: ignore[attr-defined]
+                        rows = [list(e.elts) for e in st.iter.elts]  # type: ignore[attr-defined]
+                    ok_u = bool(names) and len(set(names)) == len(names)
                     nested_fn = any(isinstance(n, (ast.Lambda, ast.FunctionDef, ast.AsyncFunctionDef)) for b in st.body for n in ast.walk(b))
-                    if not rebinds and not nested_fn and reads_total(x) == inside + 1:
-                        for e in st.iter.elts:
-                            rep = _Replace(x, e)
-                            out.extend(rep.visit(copy.deepcopy(b)) for b in st.body)
+                    for x in names:
+                        inside = sum(1 for b in st.body for n in ast.walk(b) if isinstance(n, ast.Name) and n.id == x)
+                        rebinds = any(isinstance(n, ast.Name) and n.id == x and isinstance(n.ctx, (ast.Store, ast.Del)) for b in st.body for n in ast.walk(b))
+                        ok_u = ok_u and not rebinds and reads_total(x) == inside + 1
+                    if ok_u and not nested_fn:
+                        for row in rows:
+                            bodies = [copy.deepcopy(b) for b in st.body]
+                            for x, e in zip(names, row):
+                                rep = _Replace(x, e)
+                                bodies = [rep.visit(b) for b in bodies]
+                            out.extend(bodies)
                         count += 1
                         continue
                 out.append(st)
